@@ -1,7 +1,9 @@
 """registry of all property checks"""
 import props_struct
 import props_trav
+import props_query
 
 CHECKS = {}
 CHECKS.update(props_struct.CHECKS)
 CHECKS.update(props_trav.CHECKS)
+CHECKS.update(props_query.CHECKS)
